@@ -128,8 +128,56 @@ impl Gen<'_> {
         let ws = *self.rng.pick(&WS);
         let kind = *self.rng.pick(&[
             "include", "include", "run", "run", "write", "write", "empty", "temp", "tag", "incdep", "afterdep", "catplain",
-            "incsrc",
+            "incsrc", "tagchain",
         ]);
+        if kind == "tagchain" {
+            // two tags alive at once, the text stored under one mentions the other, both used on
+            // one line: substituted text is never scanned again, the leftmost occurrence wins
+            if f.listening.is_some() || !self.rng.chance(1, 2) {
+                return;
+            }
+            let cand: Vec<&str> = TAGS
+                .iter()
+                .copied()
+                .filter(|t| f.stored.iter().all(|k| !(t.starts_with(k.as_str()) || k.starts_with(t))))
+                .collect();
+            if cand.len() < 2 {
+                return;
+            }
+            let a = (*self.rng.pick(&cand)).to_string();
+            let others: Vec<&str> = cand
+                .iter()
+                .copied()
+                .filter(|t| !(t.starts_with(a.as_str()) || a.starts_with(t)))
+                .collect();
+            if others.is_empty() {
+                return;
+            }
+            let b = (*self.rng.pick(&others)).to_string();
+            let in_a = match self.rng.below(3) {
+                0 => format!("see {b} there"),
+                1 => b.clone(),
+                _ => format!("{b}{b}"),
+            };
+            let in_b = match self.rng.below(3) {
+                0 => format!("body of {a}"),
+                1 => "plain".to_string(),
+                _ => format!("{a}"),
+            };
+            f.b.push(format!("TXTPP#tag {a}"));
+            f.b.group(vec![format!("-TXTPP#write {in_a}")]);
+            f.b.push(format!("TXTPP#tag {b}"));
+            f.b.group(vec![format!("-TXTPP#write {in_b}")]);
+            let line = match self.rng.below(4) {
+                0 => format!("{a} {b}"),
+                1 => format!("{b} {a}"),
+                2 => format!("<{a}>({b})"),
+                _ => format!("{a}{b}"),
+            };
+            f.b.push(line);
+            resync(f);
+            return;
+        }
         let multi = matches!(kind, "run" | "write" | "empty" | "temp" | "catplain");
         let prefix: String = if multi {
             (*self.rng.pick(&PREFIX_ASCII)).to_string()
